@@ -29,6 +29,10 @@ pub trait Monitor {
         Ok(())
     }
     fn call(&mut self, rec: &CallRec<'_>, out: &mut Out) -> Verdict;
+    /// The monitor may steer the virtual clock (e.g. to land exactly on a boundary of its predicate).
+    fn suggest_step(&mut self, _r: &mut Xo, _now: VClock) -> Option<i64> {
+        None
+    }
 }
 
 pub struct Scenario<'a> {
@@ -85,7 +89,10 @@ pub fn run_scenario(
                 }
             }
         }
-        let step = gen_step(r, &sc.h);
+        let step = match mon.suggest_step(r, now) {
+            Some(s) => s,
+            None => gen_step(r, &sc.h),
+        };
         now = apply_step(now, step);
         if now.0 > sc.max_time {
             now = VClock(sc.max_time);
